@@ -13,6 +13,7 @@ def _k(*kinds):
     return lambda kind, payload: kind in kinds
 
 
+NUM_CORE = ['1', '0', '.', 'e', '_', '+', 'j']
 RULES = {
     # a damaged bracket structure legitimately surfaces as the first token that no longer fits (the parser pulls tokens lazily, CPython's tokenizer
     # checks brackets ahead of its parser): any unexpected-token error inside the statement names the rule, as do the lexer's nesting errors
@@ -256,8 +257,8 @@ def indent_cases(tier):
         yield 'indentation', text, 0, len(text), repr((i1, i2, i3))
 
 
-def number_cases(n, shard):
-    for t, l in X.shard_strings(c06.NUM_SIGMA, n, shard):
+def number_cases(n, shard, sigma=None):
+    for t, l in X.shard_strings(sigma or c06.NUM_SIGMA, n, shard):
         if t and t[0] in '0123456789.':
             text = 'x = %s\n' % t
             yield 'number', text, 4, 4 + len(t), t
@@ -322,7 +323,7 @@ def run_shard(args):
     elif kind == 'indents':
         cases = list(args[1])
     elif kind == 'numbers':
-        cases = list(number_cases(args[1], args[2]))
+        cases = list(number_cases(args[1], args[2], args[3] if len(args) > 3 else None))
     else:
         cases = list(fstring_cases(args[1], args[2]))
     r = C.Result()
@@ -357,6 +358,7 @@ def run(tier, seed):
     jobs += [('indents', ch) for ch in X.chunks(indent_cases(tier), 6000)]
     n = 4 if tier == 'quick' else 5
     jobs += [('numbers', n, s) for s in X.prefix_shards(c06.NUM_SIGMA, n, 1)]
+    jobs += [('numbers', n + 2, s, NUM_CORE) for s in X.prefix_shards(NUM_CORE, n + 2, 1)]
     nf = 2 if tier == 'quick' else 3
     jobs += [('fstrings', nf, s) for s in X.prefix_shards(c07.SIGMA, nf, 1)]
     total = C.Result()
@@ -369,7 +371,7 @@ def run(tier, seed):
     rule = ('edit operators on every CPython-valid G_ref sentence with <=%d non-default alternatives, at every site: delete/duplicate/swap each bracket; insert each of $ ? ` ! NBSP € between tokens; a backslash '
             'followed by each of a, space, #, backslash, 1 between tokens and at EOF; rename each parameter to each earlier one; damage each string token in 7 ways; bytes/text mixes. Products: every parameter '
             'list of <=%d items over 11 parameter forms (def / async def / lambda), every argument list of <=%d items over 7 argument forms (call, class, method call), 9 starred forms x 7 contexts, 11 as-patterns, '
-            'every (outer, inner, dedent) indentation triple over %d indentation strings, every number-like string of length<=%d over the number alphabet, every f-string body of <=%d lexemes. A case is judged iff '
+            'every (outer, inner, dedent) indentation triple over %d indentation strings, every number-like string of length<=%d over the number alphabet (two symbols longer over the core 10.e_+j), every f-string body of <=%d lexemes. A case is judged iff '
             'CPython rejects it with the rule\'s message class; states = distinct (rule, text), transitions = judged cases' % (d, 4 if tier == 'quick' else 5, 3 if tier == 'quick' else 5, len(INDENTS) if tier == 'thorough' else 11, n, nf))
     return C.finish(PROP, tier, seed, t0, total, rule,
                     ['CPython 3.11 (ast.parse, then compile() for duplicate parameters / repeated keywords) decides that a case violates the rule, by message class',
